@@ -1,6 +1,799 @@
-"""Execution-order oracles of SIM-E (C01-C05, C10-C14, C41). Filled in incrementally."""
+"""Execution-order oracles of SIM-E: C01-C05, C10-C14, C41."""
 from __future__ import annotations
+
+import re
+from typing import Any
+
+from . import model
+from .oracles_basic import Oracle
+
+M_SLACK = 6      # bounded-liveness slack in Running ticks (appendix A of DESIGN.md: observed need is 3)
 
 
 def make(world, plan, res):
-    return []
+    cfg = plan.get("cfg", {})
+    out = [C11Commands(world, plan, res), C05Blocks(world, plan, res), C13Errors(world, plan, res),
+           C10StopRestart(world, plan, res)]
+    if cfg.get("wellformed", False):
+        out += [C02Order(world, plan, res), C03Thresholds(world, plan, res), C04Interrupts(world, plan, res),
+                C41Macros(world, plan, res)]
+    out += [C01Edits(world, plan, res), C14Inject(world, plan, res), C12CancelForce(world, plan, res)]
+    return out
+
+
+def records(w) -> dict[str, list[tuple[str, int, float, str]]]:
+    out: dict[str, list[tuple[str, int, float, str]]] = {}
+    for r in w.engine.interpreter.runtimeinfo.records:
+        out[r.node_id] = [(str(st.state_name), st.state_tick, st.state_time, st.instance_id) for st in r.states]
+    return out
+
+
+def in_repeating_scope(n: model.MNode) -> bool:
+    return any(a.kind in ("Alarm", "Macro") for a in n.ancestors())
+
+
+# ---------------------------------------------------------------------------------------------- C11
+class C11Commands(Oracle):
+    """Exclusivity and init/finalize pairing of UOD command instances, from the probe callbacks."""
+
+    OVERLAP = [{"LongA", "LongB"}]
+
+    def __init__(self, world, plan, res):
+        super().__init__(world, plan, res)
+        self.inst: dict[int, dict[str, Any]] = {}
+        self.exec_this_tick: dict[str, set[int]] = {}
+        self.tick_seen = -2
+
+    def on_probe(self, ev):
+        tick, phase, name, inst, it, args = ev
+        d = self.inst.setdefault(inst, {"name": name, "init": 0, "exec": 0, "fin": 0, "first_exec": None, "fin_tick": None,
+                                        "init_tick": None})
+        if tick != self.tick_seen:
+            self.tick_seen = tick
+            self.exec_this_tick = {}
+        if phase == "init":
+            d["init"] += 1
+            d["init_tick"] = tick
+            if d["init"] > 1:
+                self.v("C11", "C11.initialized_twice", name, f"instance {inst} of {name} initialized {d['init']} times")
+            if d["exec"] > 0:
+                self.v("C11", "C11.init_after_exec", name, f"instance {inst} of {name} initialized after it executed")
+        elif phase == "exec":
+            if d["init"] == 0:
+                self.v("C11", "C11.exec_without_init", name, f"instance {inst} of {name} executed without init")
+            if d["fin"] > 0:
+                self.v("C11", "C11.exec_after_finalize", name, f"instance {inst} of {name} executed after finalize")
+            d["exec"] += 1
+            self.exec_this_tick.setdefault(name, set()).add(inst)
+            if len(self.exec_this_tick[name]) > 1:
+                self.v("C11", "C11.two_instances_same_command_in_tick", name,
+                       f"instances {sorted(self.exec_this_tick[name])} of {name} executed in tick {tick}")
+            for grp in self.OVERLAP:
+                if name in grp:
+                    others = [n for n in grp if n != name and self.exec_this_tick.get(n)]
+                    if others:
+                        self.v("C11", "C11.overlapping_commands_in_tick", "+".join(sorted(grp)),
+                               f"{name} and {others} executed in tick {tick}")
+        elif phase == "finalize":
+            d["fin"] += 1
+            d["fin_tick"] = tick
+            if d["fin"] > 1:
+                self.v("C11", "C11.finalized_twice", name, f"instance {inst} of {name} finalized {d['fin']} times")
+
+    def at_end(self, w):
+        # the harness always ends a run with Stop + settle ticks: every initialized instance is finalized
+        if not getattr(w, "ended_with_stop", False):
+            return
+        for inst, d in self.inst.items():
+            if d["init"] and d["fin"] == 0:
+                self.v("C11", "C11.never_finalized", d["name"],
+                       f"instance {inst} of {d['name']} initialized in tick {d['init_tick']} was never finalized")
+        if w.uod.command_instances:
+            self.v("C11", "C11.instance_left_after_stop", sorted(w.uod.command_instances)[0],
+                   f"after the final Stop uod still holds instances {sorted(w.uod.command_instances)}")
+
+
+# ---------------------------------------------------------------------------------------------- C10
+class C10StopRestart(Oracle):
+    """When Stop/Restart completes nothing is executing, the run-stopped run log is conclusive for UOD commands,
+    simulations and the run id are cleared, Restart runs again from the first line under a new id."""
+
+    def __init__(self, world, plan, res):
+        super().__init__(world, plan, res)
+        world.on_stop_hooks.append(self.on_stop_event)
+        self.stop_tick = None
+        self.run_id_at_stop = None
+        self.pending_restart_check = None
+        self.prev_rid = None
+
+    def before_tick(self, w, inc):
+        self.prev_rid = w.tag("Run Id")
+        self.ev_pos = len(w.events)
+
+    def on_stop_event(self):
+        # what EngineRunner does in its on_stop handler: build the run-stopped message now
+        w = self.w
+        rid = self.prev_rid
+        self.stop_tick = w.tick_no
+        try:
+            msg = w.builder.create_run_stopped_msg(rid or "")
+        except Exception as ex:
+            self.v("C10", "C10.run_stopped_message_raised", type(ex).__name__, repr(ex))
+            return
+        for ln in msg.runlog.lines:
+            base = ln.command_name.split(":")[0].strip()
+            if base in model.UOD:
+                concluded = ln.end is not None or ln.cancelled or ln.failed
+                if not concluded:
+                    self.v("C10", "C10.uod_command_open_in_final_runlog", base,
+                           f"run-stopped run log shows {ln.command_name!r} neither completed, failed nor cancelled")
+        self.res.probe("run_stopped_msg_checked")
+
+    def after_tick(self, w, inc):
+        evs = w.events[self.ev_pos:]
+        if any(e[1] == "stop" for e in evs):
+            if w.uod.command_instances:
+                self.v("C10", "C10.command_instance_after_stop", sorted(w.uod.command_instances)[0],
+                       f"Stop/Restart completed in tick {w.tick_no} but uod holds {sorted(w.uod.command_instances)}")
+            sim = [t.name for t in w.engine._iter_all_tags() if t.simulated]
+            if sim:
+                self.v("C10", "C10.simulation_not_cleared", sim[0], f"tags still simulated after stop: {sim}")
+            self.stopped_at = w.tick_no
+        if w.state == "Stopped" and getattr(self, "stopped_at", None) is not None and w.tick_no >= self.stopped_at:
+            if w.tag("Run Id"):
+                self.v("C10", "C10.run_id_not_cleared", "Run Id", f"Run Id {w.tag('Run Id')!r} after stop")
+
+
+# ---------------------------------------------------------------------------------------------- C05
+class C05Blocks(Oracle):
+    """Active blocks form one ancestor chain; the Block tag names the innermost; End block ends exactly it."""
+
+    def __init__(self, world, plan, res):
+        super().__init__(world, plan, res)
+        self.stack: list[str] = []
+        self.ev_pos = 0
+        self.tree = model.parse(plan["method"]) if plan.get("cfg", {}).get("wellformed") else None
+        self.by_name = {}
+        if self.tree:
+            for n in self.tree.walk():
+                if n.kind == "Block":
+                    self.by_name.setdefault(n.arg, n)
+
+    def before_tick(self, w, inc):
+        self.ev_pos = len(w.events)
+
+    def after_edit(self, kind, expect, accepted, old, new):
+        if accepted and self.tree is not None:
+            self.tree = model.parse(new)
+            self.by_name = {}
+            for n in self.tree.walk():
+                if n.kind == "Block":
+                    self.by_name.setdefault(n.arg, n)
+
+    def after_tick(self, w, inc):
+        for e in w.events[self.ev_pos:]:
+            if e[1] == "start" or e[1] == "stop":
+                self.stack = []
+            elif e[1] == "block_start" and e[2] != "root":
+                name = e[2]
+                node = self.by_name.get(name)
+                if node is not None:
+                    anc = {a.arg for a in node.ancestors() if a.kind == "Block"}
+                    bad = [b for b in self.stack if b not in anc]
+                    if bad:
+                        self.v("C05", "C05.block_started_beside_active_block", "Block",
+                               f"block {name} started while {bad} active; its ancestors are {sorted(anc)}")
+                self.stack.append(name)
+            elif e[1] == "block_end":
+                name = e[2]
+                if not self.stack:
+                    self.v("C05", "C05.block_end_without_active_block", "Block", f"block_end {name} with no active block")
+                elif self.stack[-1] != name:
+                    self.v("C05", "C05.ended_block_not_innermost", "Block",
+                           f"block {name} ended while active chain is {self.stack}")
+                    if name in self.stack:
+                        self.stack.remove(name)
+                else:
+                    self.stack.pop()
+        tagv = w.tag("Block")
+        want = self.stack[-1] if self.stack else None
+        if (tagv or None) != want and w.state not in ("Stopped", "Restarting"):
+            self.v("C05", "C05.block_tag_mismatch", "Block",
+                   f"Block tag = {tagv!r}, active chain {self.stack}")
+        self.res.state("blk", len(self.stack))
+
+
+# ---------------------------------------------------------------------------------------------- C13
+class C13Errors(Oracle):
+    """Ticks never raise (recorded by the world); a failing instruction pauses the run with Method Status
+    Error and is marked failed; Stop stays responsive."""
+
+    def __init__(self, world, plan, res):
+        super().__init__(world, plan, res)
+        self.ev_pos = 0
+        self.hw_faulty = any(op[0] == "hwfault" for op in plan["ops"])
+
+    def before_tick(self, w, inc):
+        self.ev_pos = len(w.events)
+        self.prev_state = w.state
+        self.prev_failed = set(w.method_state().failed_line_ids)
+
+    def after_tick(self, w, inc):
+        evs = w.events[self.ev_pos:]
+        errs = [e for e in evs if e[1] == "method_error"]
+        if errs:
+            self.res.probe("method_error")
+            if w.state not in ("Paused", "Stopped", "Restarting"):
+                self.v("C13", "C13.error_did_not_pause", errs[0][2], f"method error {errs[0][2]} but state {w.state}")
+            elif w.state == "Paused" and w.tag("Method Status") != "Error":
+                self.v("C13", "C13.error_status_not_set", errs[0][2],
+                       f"method error {errs[0][2]} paused the run but Method Status = {w.tag('Method Status')!r}")
+            if errs[0][2] == "NodeInterpretationError" and not self.hw_faulty:
+                failed = set(w.method_state().failed_line_ids)
+                injected = set(w.method_state().injected_line_ids)
+                if not (failed - self.prev_failed) and not failed:
+                    self.v("C13", "C13.failed_line_not_marked", "method_state",
+                           "an instruction failed but no line is marked failed in the method state")
+
+
+# ---------------------------------------------------------------------------------------------- C02
+class C02Order(Oracle):
+    """No edits / Restart: tokens outside Alarm and macro bodies at most once; siblings in source order; in the
+    timing-independent fragment the main-path effect sequence equals the reference walk."""
+
+    def __init__(self, world, plan, res):
+        super().__init__(world, plan, res)
+        self.tree = model.parse(plan["method"])
+        self.enabled = not any(op[0] in ("edit", "inject", "cancel", "force") for op in plan["ops"]) and \
+            not any(op[0] == "user" and op[1] in ("Restart", "Stop") for op in plan["ops"]) and \
+            not any(n.kind in ("Restart", "Stop") for n in self.tree.walk())
+        self.token_nodes: dict[tuple, list[model.MNode]] = {}
+        for n in self.tree.walk():
+            if n.token:
+                self.token_nodes.setdefault(n.token, []).append(n)
+
+    def at_end(self, w):
+        if not self.enabled:
+            return
+        fx = [(e[0], (e[1], e[2])) for e in w.effects]
+        first: dict[tuple, int] = {}
+        count: dict[tuple, int] = {}
+        for i, (tick, tok) in enumerate(fx):
+            count[tok] = count.get(tok, 0) + 1
+            first.setdefault(tok, i)
+        for tok, nodes in self.token_nodes.items():
+            if len(nodes) != 1:
+                continue    # Valve/Ramp tokens may legitimately repeat across lines
+            n = nodes[0]
+            if not in_repeating_scope(n) and count.get(tok, 0) > 1:
+                self.v("C02", "C02.instruction_ran_twice", n.kind, f"{n.text.strip()!r} ({n.id}) produced its effect {count[tok]} times")
+        # sibling order on unique tokens, same parent, parent not a repeating scope
+        for n in self.tree.walk():
+            kids = [c for c in n.children if c.token and len(self.token_nodes[c.token]) == 1]
+            if in_repeating_scope(n) or n.kind in ("Alarm", "Macro"):
+                continue
+            for a, b in zip(kids, kids[1:]):
+                if a.token in first and b.token in first and first[b.token] < first[a.token]:
+                    self.v("C02", "C02.siblings_out_of_order", n.kind,
+                           f"{b.text.strip()!r} took effect before its earlier sibling {a.text.strip()!r}")
+        # trailing whitespace of a scope is never passed
+        ms = w.method_state()
+        passed = set(ms.started_line_ids) | set(ms.executed_line_ids)
+        for n in self.tree.walk():
+            trailing = []
+            for c in reversed(n.children):
+                if c.is_ws:
+                    trailing.append(c)
+                else:
+                    break
+            for c in trailing:
+                if c.id in passed and n.kind == "root":
+                    self.v("C02", "C02.trailing_whitespace_passed", c.kind,
+                           f"trailing {c.kind} line {c.id} of the method is reported started/executed")
+        # reference walk (fragment)
+        exp = self._reference()
+        if exp is not None and getattr(w, "quiescent", False):
+            got = [tok for _, tok in fx]
+            if got != exp:
+                self.v("C02", "C02.effect_sequence_differs_from_reference", "main",
+                       f"effects {got[:12]} expected {exp[:12]}")
+            else:
+                self.res.probe("reference_walk_matched")
+
+    def _reference(self):
+        """Source-order expansion for methods made only of Mark, probe commands, Wait, Base, Block(+End block last),
+        Macro/Call macro, Info, whitespace. Returns None outside that fragment."""
+        macros: dict[str, model.MNode] = {}
+        out: list[tuple] = []
+        ok = True
+
+        def walk(nodes):
+            nonlocal ok
+            for n in nodes:
+                if not ok:
+                    return
+                if n.is_ws or n.kind in ("Base", "Wait", "Info", "Warning", "Notify", "Batch", "Increment run counter",
+                                         "Run counter"):
+                    continue
+                if n.threshold is not None:
+                    pass
+                if n.token:
+                    if n.kind in ("Boom", "BoomInit", "BadArgs"):
+                        ok = False
+                        return
+                    out.append(n.token)
+                elif n.kind == "Block":
+                    real = [c for c in n.children if not c.is_ws]
+                    if not real or real[-1].kind != "End block" or any(c.kind in ("End block", "End blocks") for c in real[:-1]):
+                        ok = False
+                        return
+                    walk(n.children)
+                elif n.kind == "End block":
+                    continue
+                elif n.kind == "Macro":
+                    macros[n.arg] = n
+                elif n.kind == "Call macro":
+                    m = macros.get(n.arg)
+                    if m is None or any(c.kind == "Call macro" for c in m.walk()):
+                        ok = False
+                        return
+                    walk(m.children)
+                else:
+                    ok = False
+                    return
+        walk(self.tree.children)
+        return out if ok else None
+
+
+# ---------------------------------------------------------------------------------------------- C03
+class C03Thresholds(Oracle):
+    """Never early: an instruction with threshold T starts only when its scope clock (as the interpreter saw it,
+    i.e. before that tick's clock update) has reached T. Wait: the next instruction starts d .. d+0.1 s later."""
+
+    UNIT = {"s": 1.0, "min": 60.0, "h": 3600.0}
+
+    def __init__(self, world, plan, res):
+        super().__init__(world, plan, res)
+        self.tree = model.parse(plan["method"])
+        self.nodes = {n.id: n for n in self.tree.walk()}
+        self.before: dict[int, dict[str, Any]] = {}
+        self.exact = all(op[0] != "tick" or abs(op[2] - 0.1) < 1e-12 for op in plan["ops"])
+        self.no_requests = not any(op[0] in ("edit", "inject", "cancel", "force") for op in plan["ops"])
+        self.disturbed_ticks: set[int] = set()
+
+    def before_tick(self, w, inc):
+        self.before[w.tick_no + 1] = {"BT": w.tag("Block Time"), "ST": w.tag("Scope Time"), "blk": w.tag("Block"),
+                                     "base": w.tag("Base"), "state": w.state,
+                                     "AV": w.engine.tags["Accumulated Volume"].get_value(),
+                                     "BV": w.engine.tags["Block Volume"].get_value(),
+                                     "ACV": w.engine.tags["Accumulated CV"].get_value(),
+                                     "BCV": w.engine.tags["Block CV"].get_value()}
+
+    def after_tick(self, w, inc):
+        if w.state != "Running":
+            self.disturbed_ticks.add(w.tick_no)
+
+    def at_end(self, w):
+        if not self.no_requests:
+            return
+        recs = records(w)
+        for nid, states in recs.items():
+            n = self.nodes.get(nid)
+            if n is None or n.threshold is None:
+                continue
+            if in_repeating_scope(n) or any(a.kind in ("Watch",) for a in n.ancestors()):
+                inter = True
+            else:
+                inter = False
+            started = [s for s in states if s[0] == "started"]
+            forced = any(s[0] == "forced" for s in states)
+            if not started or forced:
+                continue
+            k = started[0][1]
+            # the threshold test that let the instruction pass ran in tick k or k-1 (entered one tick, effect the next)
+            ok = False
+            detail = ""
+            for kk in (k, k - 1):
+                b = self.before.get(kk)
+                if b is None:
+                    continue
+                base = b["base"]
+                if base in self.UNIT:
+                    clock = b["BT"] if b["blk"] not in (None, "") else b["ST"]
+                    have = clock
+                    need = n.threshold * self.UNIT[base]
+                elif base == "L":
+                    have = b["BV"] if b["blk"] not in (None, "") else b["AV"]
+                    need = n.threshold
+                elif base == "CV":
+                    have = b["BCV"] if b["blk"] not in (None, "") else b["ACV"]
+                    need = n.threshold
+                else:
+                    ok = True
+                    break
+                # the interpreter sees the clock after the previous tick's update, plus nothing: allow one increment
+                if have is not None and have + 1e-6 >= need - 1e-9:
+                    ok = True
+                    break
+                detail = f"clock {have} (base {base}, block {b['blk']!r}) at tick {kk}, threshold {need}"
+            if not ok and not inter:
+                self.v("C03", "C03.started_before_threshold", n.kind,
+                       f"{n.text.strip()!r} started in tick {k}: {detail}")
+            elif ok:
+                self.res.probe("threshold_checked")
+        if not self.exact:
+            return
+        # Wait durations (exact 0.1 s ticks, main path, no pause/hold/error overlap)
+        for nid, states in recs.items():
+            n = self.nodes.get(nid)
+            if n is None or n.kind != "Wait" or in_repeating_scope(n) or any(a.kind == "Watch" for a in n.ancestors()):
+                continue
+            m = re.match(r"^([0-9.]+)\s*(s|min|h)$", n.arg.strip())
+            st = [s for s in states if s[0] == "started"]
+            if not m or not st or any(s[0] == "forced" for s in states):
+                continue
+            d = float(m.group(1)) * self.UNIT[m.group(2)]
+            sibs = [c for c in n.parent.children if not c.is_ws]
+            i = sibs.index(n)
+            if i + 1 >= len(sibs):
+                continue
+            nxt = recs.get(sibs[i + 1].id)
+            if not nxt:
+                continue
+            nst = [s for s in nxt if s[0] == "started"]
+            if not nst or sibs[i + 1].threshold is not None or sibs[i + 1].kind in ("Block", "Watch", "Alarm", "Macro"):
+                continue
+            t0, t1 = st[0][2], nst[0][2]
+            k0, k1 = st[0][1], nst[0][1]
+            if t1 - t0 < d - 1e-6:
+                self.v("C03", "C03.wait_too_short", "Wait",
+                       f"{n.text.strip()!r} started {t0:.3f}, next instruction started {t1:.3f}: {t1 - t0:.3f} s < {d} s")
+            elif not any(t in self.disturbed_ticks for t in range(k0 - 1, k1 + 1)) and t1 - t0 > d + 0.1 + 1e-6:
+                self.v("C03", "C03.wait_too_long", "Wait",
+                       f"{n.text.strip()!r}: next instruction started {t1 - t0:.3f} s after the Wait started (d={d})")
+            else:
+                self.res.probe("wait_checked")
+
+
+# ---------------------------------------------------------------------------------------------- C04
+class C04Interrupts(Oracle):
+    """Watch body runs at most once and only after its condition held (or it was forced); never after cancel or
+    after its block ended; Alarm invocations are sequential and re-arm."""
+
+    PV = {"PV1", "PV2", "LVL"}
+
+    def __init__(self, world, plan, res):
+        super().__init__(world, plan, res)
+        self.tree = model.parse(plan["method"])
+        self.watches = [n for n in self.tree.walk() if n.kind in ("Watch", "Alarm")]
+        self.cond_true_ticks: dict[str, list[int]] = {n.id: [] for n in self.watches}
+        self.registered: dict[str, int] = {}
+        self.forced: set[str] = set()
+        self.cancelled_at: dict[str, int] = {}
+        self.enabled = not any(op[0] in ("edit",) for op in plan["ops"]) and \
+            not any(op[0] == "user" and op[1] in ("Restart",) for op in plan["ops"]) and \
+            not any(n.kind in ("Restart",) for n in self.tree.walk())
+        self.ev_pos = 0
+        self.conds = {n.id: model.cond_parse(n.arg) for n in self.watches}
+        self.running_true_streak: dict[str, int] = {}
+        self.activated: dict[str, list[int]] = {}
+
+    def before_tick(self, w, inc):
+        self.ev_pos = len(w.events)
+        self.pre = {"Run Time": w.tag("Run Time"), "Block Time": w.tag("Block Time"), "Run Counter": w.tag("Run Counter"),
+                    "state": w.state}
+
+    def after_cancel_force(self, what, item, target_id, ok):
+        if not ok or item is None:
+            return
+        name = item.name
+        for n in self.watches:
+            if name.strip() == f"{n.kind}: {n.arg}".strip():
+                if what == "force":
+                    self.forced.add(n.id)
+                else:
+                    self.cancelled_at.setdefault(n.id, self.w.tick_no)
+
+    def after_tick(self, w, inc):
+        for e in w.events[self.ev_pos:]:
+            if e[1] == "scope_start" and e[3] in ("Watch", "Alarm"):
+                self.registered.setdefault(e[2], w.tick_no)
+            if e[1] == "scope_activate" and e[3] in ("Watch", "Alarm"):
+                self.activated.setdefault(e[2], []).append(w.tick_no)
+        for n in self.watches:
+            c = self.conds[n.id]
+            if c is None:
+                continue
+            tag = c[0]
+            if tag in self.PV:
+                sim = w.engine.tags[tag]
+                val = sim.get_value()         # what the interpreter compared (simulated value if simulated)
+            elif tag in ("Run Time", "Block Time", "Run Counter"):
+                val = self.pre[tag]
+            else:
+                continue
+            try:
+                truth = model.cond_eval(c, float(val))
+            except Exception:
+                continue
+            if truth:
+                self.cond_true_ticks[n.id].append(w.tick_no)
+
+    def at_end(self, w):
+        if not self.enabled:
+            return
+        for n in self.watches:
+            acts = self.activated.get(n.id, [])
+            c = self.conds[n.id]
+            if n.kind == "Watch" and len(acts) > 1 and not in_repeating_scope(n):
+                self.v("C04", "C04.watch_body_ran_twice", "Watch", f"Watch {n.arg!r} ({n.id}) activated in ticks {acts}")
+            if c is None or c[0] not in self.PV | {"Run Time", "Block Time", "Run Counter"}:
+                continue
+            for a in acts:
+                # the deciding evaluation happened in tick a or the one before (activation is entered the next tick)
+                trues = self.cond_true_ticks[n.id]
+                ok = any(t in trues for t in (a, a - 1, a - 2)) or n.id in self.forced
+                if c[0] in ("Run Time", "Block Time"):
+                    ok = ok or any(t in trues for t in (a + 1,))   # the clock is read before this tick's update
+                if not ok:
+                    self.v("C04", "C04.body_ran_without_condition", n.kind,
+                           f"{n.kind} {n.arg!r} activated in tick {a}; the harness saw the condition true only in ticks "
+                           f"{trues[:6]} (forced={n.id in self.forced})")
+                else:
+                    self.res.probe("activation_checked")
+            ca = self.cancelled_at.get(n.id)
+            if ca is not None and any(a > ca + 1 for a in acts):
+                self.v("C04", "C04.body_ran_after_cancel", n.kind,
+                       f"{n.kind} {n.arg!r} cancelled in tick {ca} but activated in ticks {acts}")
+
+
+# ---------------------------------------------------------------------------------------------- C41
+class C41Macros(Oracle):
+    """A macro call runs the latest executed definition once, in order; a cycle fails the call instead of recursing."""
+
+    def __init__(self, world, plan, res):
+        super().__init__(world, plan, res)
+        self.tree = model.parse(plan["method"])
+        self.enabled = not any(op[0] in ("edit", "inject", "cancel", "force") for op in plan["ops"]) and \
+            not any(op[0] == "user" and op[1] in ("Restart", "Stop") for op in plan["ops"])
+
+    def at_end(self, w):
+        for e in w.exceptions:
+            if "RecursionError" in e[2]:
+                self.v("C41", "C41.recursion_error_escaped", "tick", e[2])
+        if not self.enabled:
+            return
+        # main-path macro calls in the fragment without interrupts: body tokens appear once per call, in order
+        if any(n.kind in ("Watch", "Alarm", "Stop", "Restart", "Pause", "Hold") for n in self.tree.walk()):
+            return
+        macros: dict[str, model.MNode] = {}
+        exp_counts: dict[tuple, int] = {}
+        calls = 0
+        recs = records(w)
+
+        def started(n):
+            return any(s[0] in ("started", "completed") for s in recs.get(n.id, []))
+        for n in self.tree.children:
+            if n.kind == "Macro":
+                if started(n):
+                    macros[n.arg] = n
+            elif n.kind == "Call macro":
+                st = recs.get(n.id, [])
+                if any(s[0] == "completed" for s in st):
+                    m = macros.get(n.arg)
+                    if m is None:
+                        continue
+                    calls += 1
+                    if any(c.kind == "Call macro" for c in m.walk()):
+                        return
+                    for c in m.walk():
+                        if c.token and c is not m:
+                            exp_counts[c.token] = exp_counts.get(c.token, 0) + 1
+        if not calls or not getattr(w, "quiescent", False):
+            return
+        got: dict[tuple, int] = {}
+        for e in w.effects:
+            got[(e[1], e[2])] = got.get((e[1], e[2]), 0) + 1
+        body_tokens = {c.token for m in self.tree.children if m.kind == "Macro" for c in m.walk() if c.token}
+        outside = {n.token for n in self.tree.walk() if n.token and not any(a.kind == "Macro" for a in n.ancestors())}
+        for tok in body_tokens - outside:
+            # a token may belong to several definitions of one macro name; compare totals
+            if got.get(tok, 0) != exp_counts.get(tok, 0) and tok[0] == "mark":
+                self.v("C41", "C41.macro_body_count_mismatch", "Macro",
+                       f"token {tok} seen {got.get(tok, 0)} times, expected {exp_counts.get(tok, 0)} from completed calls")
+        self.res.probe("macro_calls_checked", calls)
+
+
+# ---------------------------------------------------------------------------------------------- C01
+class C01Edits(Oracle):
+    """Live edits never re-run or lose progress; reported method state is monotone; started-line edits rejected."""
+
+    def __init__(self, world, plan, res):
+        super().__init__(world, plan, res)
+        self.has_edits = any(op[0] == "edit" for op in plan["ops"])
+        self.no_restart = not any(op[0] == "user" and op[1] in ("Restart", "Stop", "Start") for op in plan["ops"][1:]) and \
+            not any(re.match(r"^\s*([0-9.]+ )?(Restart|Stop)\b", c) for _, c in plan["method"])
+        self.pre_state = None
+        self.pre_digest = None
+        self.appended: list[tuple[str, str, int]] = []     # (line id, mark token, tick)
+        self.edit_ticks: list[int] = []
+
+    def _digest(self):
+        w = self.w
+        ms = w.method_state()
+        return (tuple(w.method_lines), tuple(sorted(ms.started_line_ids)), tuple(sorted(ms.executed_line_ids)),
+                tuple(sorted(ms.failed_line_ids)), len(w.effects), w.state, tuple(sorted(w.uod.command_instances)))
+
+    def before_edit(self, kind, expect, old, new):
+        ms = self.w.method_state()
+        self.pre_state = (set(ms.started_line_ids), set(ms.executed_line_ids), set(ms.failed_line_ids))
+        self.pre_digest = self._digest()
+        self.pre_run_active = self.w.state not in ("Stopped", "Restarting")
+
+    def after_edit(self, kind, expect, accepted, old, new):
+        w = self.w
+        self.edit_ticks.append(w.tick_no)
+        if expect == "reject":
+            if accepted and self.pre_run_active:
+                self.v("C01", "C01.started_line_edit_accepted", kind, "an edit that changes a started line was accepted")
+            elif not accepted and self._digest() != self.pre_digest:
+                self.v("C01", "C01.rejected_edit_changed_state", kind, "a rejected edit changed method / state")
+            return
+        if not accepted:
+            if self.pre_run_active:
+                self.v("C01", "C01.legal_edit_rejected", kind,
+                       "an edit that leaves every started line unchanged was rejected")
+            return
+        if not self.pre_run_active:
+            return
+        ms = w.method_state()
+        new_ids = {i for i, _ in new}
+        post = (set(ms.started_line_ids), set(ms.executed_line_ids), set(ms.failed_line_ids))
+        for name, a, b in zip(("started", "executed", "failed"), self.pre_state, post):
+            lost = {i for i in a if i in new_ids} - (post[0] | post[1] | post[2] if name == "started" else b)
+            if lost:
+                self.v("C01", "C01.method_state_lost_after_edit", name,
+                       f"lines {sorted(lost)[:5]} were {name} before the edit and are not reported any more")
+        if kind in ("append",):
+            old_ids = {i for i, _ in old}
+            for lid, content in new:
+                if lid not in old_ids:
+                    m = re.match(r"^\s*Mark: (\S+)", content)
+                    if m:
+                        self.appended.append((lid, m.group(1), w.tick_no))
+
+    def at_end(self, w):
+        if not self.has_edits or not self.no_restart:
+            return
+        # no re-execution: a token outside Alarm / macro bodies takes effect at most once
+        tree = model.parse(w.method_lines)
+        uniq: dict[tuple, list] = {}
+        for n in tree.walk():
+            if n.token:
+                uniq.setdefault(n.token, []).append(n)
+        count: dict[tuple, int] = {}
+        for e in w.effects:
+            count[(e[1], e[2])] = count.get((e[1], e[2]), 0) + 1
+        for tok, nodes in uniq.items():
+            if len(nodes) == 1 and not in_repeating_scope(nodes[0]) and count.get(tok, 0) > 1 and tok[0] == "mark":
+                self.v("C01", "C01.instruction_reexecuted_after_edit", nodes[0].kind,
+                       f"{nodes[0].text.strip()!r} took effect {count[tok]} times in a run with live edits at ticks {self.edit_ticks}")
+        # no lost work: a Mark appended at the end of a method whose main path reaches its end runs exactly once
+        if getattr(w, "quiescent", False) and getattr(w, "method_end_reached", False):
+            for lid, tok, t in self.appended:
+                still = any(i == lid for i, _ in w.method_lines)
+                if still and count.get(("mark", tok), 0) == 0 and w.state == "Running":
+                    self.v("C01", "C01.appended_line_never_ran", "Mark",
+                           f"Mark: {tok} appended at tick {t} never ran although the method reached its end")
+
+
+# ---------------------------------------------------------------------------------------------- C14
+class C14Inject(Oracle):
+    """Injected code runs exactly once, only in ticks in which the run is not paused/held, and does not change
+    which method lines have started or completed."""
+
+    def __init__(self, world, plan, res):
+        super().__init__(world, plan, res)
+        self.injected: list[tuple[int, list[str], bool]] = []   # (tick, mark tokens, accepted)
+        self.no_restart = not any(op[0] == "user" and op[1] in ("Restart", "Stop") for op in plan["ops"]) and \
+            not any(re.match(r"^\s*([0-9.]+ )?(Restart|Stop)\b", c) for _, c in plan["method"])
+        self.tick_state: dict[int, str] = {}
+
+    def before_tick(self, w, inc):
+        self.tick_state[w.tick_no + 1] = w.state
+
+    def after_request(self, kind, msg, accepted, reply):
+        if kind == "inject":
+            toks = re.findall(r"Mark: (i\d+)", msg.pcode)
+            self.injected.append((self.w.tick_no, toks, accepted, self.w.state))
+
+    def on_effect(self, e):
+        tick, kind, tok, _ = e
+        if kind == "mark" and re.match(r"^i\d+$", tok):
+            st = self.tick_state.get(tick)
+            if st in ("Paused", "Holding"):
+                self.v("C14", "C14.injected_code_ran_while_" + st, "Mark", f"injected Mark {tok} took effect in tick {tick} entered in {st}")
+
+    def at_end(self, w):
+        if not self.no_restart:
+            return
+        count: dict[str, int] = {}
+        for e in w.effects:
+            if e[1] == "mark":
+                count[e[2]] = count.get(e[2], 0) + 1
+        for tick, toks, accepted, st in self.injected:
+            for tok in toks:
+                c = count.get(tok, 0)
+                if c > 1:
+                    self.v("C14", "C14.injected_code_ran_twice", "Mark", f"injected Mark {tok} (tick {tick}) ran {c} times")
+                if c == 0 and accepted and st == "Running" and getattr(w, "quiescent", False) and \
+                        getattr(w, "running_ticks_after", {}).get(tick, 0) >= 3 * M_SLACK and w.state == "Running" \
+                        and not w.engine.has_error_state():
+                    self.v("C14", "C14.injected_code_never_ran", "Mark",
+                           f"Mark {tok} injected at tick {tick} (state Running) never ran")
+
+
+# ---------------------------------------------------------------------------------------------- C12
+class C12CancelForce(Oracle):
+    """Cancel / force take effect exactly as offered; requests for items not offered change nothing."""
+
+    def __init__(self, world, plan, res):
+        super().__init__(world, plan, res)
+        self.pending: list[dict] = []
+
+    def _digest(self):
+        w = self.w
+        ms = w.method_state()
+        try:
+            rl = [(it.name, str(it.state), it.cancelled, it.forced) for it in w.runlog().items]
+        except Exception:
+            rl = None
+        return (tuple(sorted(ms.started_line_ids)), tuple(sorted(ms.executed_line_ids)), w.state,
+                tuple(sorted(w.uod.command_instances)), tuple(rl) if rl is not None else None, len(w.effects))
+
+    def before_cancel_force(self, what, item, target_id):
+        self.pre = self._digest()
+
+    def after_cancel_force(self, what, item, target_id, ok):
+        w = self.w
+        offered = item is not None and (item.cancellable if what == "cancel" else item.forcible)
+        base = item.name.split(":")[0].strip() if item is not None else "unknown"
+        if offered and not ok:
+            self.v("C12", "C12.offered_but_rejected", f"{what}:{base}",
+                   f"{what} of run-log item {item.name!r} (offered) was rejected")
+        if not offered:
+            if self._digest() != self.pre:
+                self.v("C12", "C12.not_offered_request_changed_state", f"{what}:{base}",
+                       f"{what} of {item.name if item else target_id!r} (not offered) accepted={ok} changed engine state")
+            self.res.probe("not_offered_checked")
+            return
+        if ok:
+            self.pending.append({"what": what, "base": base, "name": item.name, "tick": w.tick_no, "id": target_id,
+                                 "n_effects": len(w.effects), "cmd_events": len(w.plog.events)})
+            self.res.probe(f"{what}_{base}")
+
+    def after_tick(self, w, inc):
+        for p in list(self.pending):
+            age = w.tick_no - p["tick"]
+            if p["what"] == "cancel":
+                if p["base"] in ("Pause", "Hold") and age == 2:
+                    bad = "Paused" if p["base"] == "Pause" else "Holding"
+                    r, h, pa = w.control()
+                    flag = pa if p["base"] == "Pause" else h
+                    if flag and not w.engine.has_error_state():
+                        self.v("C12", "C12.cancelled_timed_command_still_active", p["base"],
+                               f"{p['name']!r} cancelled in tick {p['tick']} but the run is still {bad} two ticks later")
+                    self.pending.remove(p)
+                elif p["base"] in model.UOD and age >= 1:
+                    later = [ev for ev in w.plog.events[p["cmd_events"]:] if ev[2] == p["base"]]
+                    # the cancelled instance must be finalized and never execute again
+                    self.pending.remove(p)
+                    names = [ev[1] for ev in later]
+                    if "exec" in names and "init" not in names:
+                        self.v("C12", "C12.cancelled_command_executed_again", p["base"],
+                               f"{p['name']!r} cancelled in tick {p['tick']} executed afterwards: {later[:3]}")
+                elif age > 3:
+                    self.pending.remove(p)
+            else:
+                if age > 3 * M_SLACK:
+                    self.pending.remove(p)
